@@ -389,7 +389,7 @@ def classify(lines, impl, rc, fixm, oldm, curm=None):
         if fh is not None:
             return "hist", fh, "history answer differs from fresh answer although the code follows the repaired model"
         return "ok", -1, ""
-    # the code as it is in /repo: every repair but the one of the stream (D33)
+    # the code as it was before /repo 8447a61: every repair but the one of the stream (D33); matching it now is a regression
     if curm is not None and rc == 0 and len(impl_s) == len(curm) and all(line_eq(a, b) for a, b in zip(impl_s, curm)) and fh is None:
         d = next(i for i in range(len(fixm)) if impl_s[i] != fixm[i])
         return "D33", d, "%s -> %s (repaired model: %s)" % (lines[d], impl_s[d][:80], fixm[d][:80])
